@@ -9,7 +9,10 @@
 (*   oc           "raise" rendering raised | "nocompile" | "pass" | "fail" | "error"       *)
 (* C23 events: op "render" (literal_to_cst / parse_literal on a value), "gen" / "mut"      *)
 (* (generate_literal / mutate_literal draws); v / back / back2 / parsed / seedv are exact  *)
-(* value descriptors, compared with ~ (LiteralsOps!Same).                                  *)
+(* value descriptors, compared with ~ (LiteralsOps!Same).  op "parse": a literal Pynguin    *)
+(* did not render (integer literal tokens lit, stated by MC_Literals), given as source text *)
+(* to parse_literal / get_literal_value / set_literal_value; xv / pv / gv / w_xv / wv are    *)
+(* exact descriptors (sign + base-16 limbs), compared with LiteralsOps!LitValue(lit).       *)
 EXTENDS LiteralsOps, TLC, TLCExt, Json, IOUtils
 
 Traces == ndJsonDeserialize(IOEnv.TRACE_FILE)
@@ -18,17 +21,19 @@ Traces == ndJsonDeserialize(IOEnv.TRACE_FILE)
 (* evaluated in exactly one of them, so that one state violates at most one property formula  *)
 (* (TLC reports one violated invariant per state): 1 = validity clauses, 2 = model             *)
 (* conformance (drift), 3 = RoundTrip, 4 = ParseBackAgrees (3, 4 only for C23 events).         *)
-VARIABLES tid, l, cur, q
-vars == <<tid, l, cur, q>>
+(* want: for a parse-only input the value LiteralsOps states for its token sequence (computed once per event) *)
+VARIABLES tid, l, cur, q, want
+vars == <<tid, l, cur, q, want>>
 NoEv == [op |-> "none"]
 Last == IF l = 0 THEN 0 ELSE IF cur.op \in {"assert", "noassert", "observer_raised"} THEN 2 ELSE 4
-Init == /\ tid \in 1..Len(Traces) /\ l = 0 /\ cur = NoEv /\ q = 0
+Init == /\ tid \in 1..Len(Traces) /\ l = 0 /\ cur = NoEv /\ q = 0 /\ want = NoX
 Next == IF q < Last
-        THEN q' = q + 1 /\ UNCHANGED <<tid, l, cur>>
+        THEN q' = q + 1 /\ UNCHANGED <<tid, l, cur, want>>
         ELSE /\ l < Len(Traces[tid].ev)
              /\ l' = l + 1
              /\ q' = 1
              /\ cur' = Traces[tid].ev[l + 1]
+             /\ want' = IF cur'.op = "parse" THEN LitValue(cur'.lit) ELSE NoX
              /\ UNCHANGED tid
 Spec == Init /\ [][Next]_vars
 
@@ -37,6 +42,7 @@ At(n) == l > 0 /\ q = n
 IsA == l > 0 /\ cur.op = "assert"
 IsR == l > 0 /\ cur.op = "render"
 IsG == l > 0 /\ cur.op \in {"gen", "mut"}
+IsP == l > 0 /\ cur.op = "parse"
 
 (* ------------------------------ C20 ------------------------------ *)
 RenderNeverFails              == (At(1) /\ IsA) => cur.oc # "raise"
@@ -65,15 +71,25 @@ RoundTrip ==
   /\ (At(3) /\ IsR /\ Dom /\ cur.evalok) => Same(cur.v, cur.back)
   /\ (At(3) /\ IsG /\ cur.evalok) => /\ cur.rr_ok /\ Same(cur.back, cur.back2)
                             /\ (cur.seeded => Same(cur.seedv, cur.back))
+  \* local search reads a literal it did not render and writes the value back: the new literal denotes it
+  /\ (At(3) /\ IsP /\ cur.g_some) => /\ cur.w_raised = "" /\ cur.w_wrote
+                                    /\ cur.w_evalok /\ XSame(cur.w_xv, want)
+                                    /\ (cur.w_some => XSame(cur.wv, want))
 (* weakened: parse_literal may answer "not parseable" (None); when it answers, it must agree *)
 ParseBackAgrees ==
   /\ (At(4) /\ IsR /\ Dom) => (cur.p_raised = "" /\ (cur.p_some => Same(cur.parsed, cur.v)))
   /\ (At(4) /\ IsG /\ cur.evalok) => (cur.p_raised = "" /\ (cur.p_some => Same(cur.parsed, cur.back)))
+  \* literals in any base, with either sign, with underscores: the value the token sequence denotes
+  /\ (At(4) /\ IsP) => /\ cur.p_raised = "" /\ (cur.p_some => XSame(cur.pv, want))
+                       /\ cur.g_raised = "" /\ (cur.g_some => XSame(cur.gv, want))
 
 (* model conformance (drift only) *)
 RaiseFollowsModel == (At(2) /\ IsR /\ Dom) => ((cur.raised # "") = HasRaise(RenderL(cur.case, AsCoded)))
 ShapeFollowsModel == (At(2) /\ IsR /\ Dom /\ cur.m = 0 /\ cur.raised = "") => Same(cur.shape, RenderL(cur.case, AsCoded))
 BackFollowsModel  == (At(2) /\ IsR /\ Dom /\ cur.m = 0 /\ cur.evalok) => Same(cur.backc, Eval(RenderL(cur.case, AsCoded)))
+(* the source text of a parse-only input is Python and evaluates to the value LiteralsOps states for it: a *)
+(* statement about specification and adapter, not about Pynguin (a violation is a machinery error)       *)
+LitValueIsPythonValue == (At(2) /\ IsP) => (cur.compiles /\ cur.evalok /\ XSame(cur.xv, want))
 (* values without a literal representation: documented fallback `None` *)
 FallbackIsNone    == (At(2) /\ IsR /\ ~Dom /\ (cur.case.k \in {"none", "frozenset"} \/
                           (cur.case.k = "obj" /\ cur.case.c \notin {"o_floatsub", "o_intsub", "o_deeplist"})))
